@@ -36,6 +36,11 @@ L = 8
 VARIANT = "plain"
 
 
+def _user_hook(module, inputs, output):
+    """a user's own (passive) forward hook: must still be registered, exactly once, after every call"""
+    return None
+
+
 class Shared(torch.nn.Module):
     def __init__(self, seed):
         super().__init__()
@@ -59,6 +64,12 @@ class Shared(torch.nn.Module):
             bn.running_var.copy_(torch.tensor([1.0, 4.0, 0.25]))
         self.calls = 0
         self.fail_at = None
+        # the caller's own configuration that every call must leave alone: a BatchNorm deliberately kept in eval mode while the rest is in
+        # training mode (fine-tuning with frozen statistics), and a user forward hook on an activation
+        self.train()
+        bn.eval()
+        act = [m for m in self.net.modules() if isinstance(m, torch.nn.ReLU)][0]
+        act.register_forward_hook(_user_hook)
 
     def forward(self, X, *args):
         self.calls += 1
@@ -214,6 +225,10 @@ def canon(model, seed):
         sd.update(k.encode())
         sd.update(v.detach().cpu().numpy().tobytes())
     rg = tuple(p.requires_grad for p in model.parameters())
+    # modules the caller keeps in eval mode must not be switched (back) to training mode; the user's hook must survive
+    frozen = tuple(n for n, m in model.named_modules() if isinstance(m, torch.nn.BatchNorm1d) and m.training)
+    user_hooks = tuple(n for n, m in model.named_modules() if any(h is _user_hook for h in m._forward_hooks.values()))
+    rg = (rg, ("eval_module_switched_to_training", frozen), ("user_hook_on", user_hooks))
     probe = []
     X, _ = data(seed + 100)
     was = model.training
@@ -237,7 +252,7 @@ def explain(c0, c1):
     if c0[1] != c1[1]:
         out.append("parameters/buffers changed")
     if c0[2] != c1[2]:
-        out.append("requires_grad flags changed")
+        out.append("requires_grad flags / frozen-module modes / user hooks changed: %s" % (c1[2][1:],))
     if c0[3] != c1[3]:
         out.append("probe outputs / ordinary gradients changed: %s" % (c1[3],))
     return "; ".join(out)
